@@ -11,7 +11,7 @@ from ..common import (AXES, dims_of, face_shapes, full_shape, interior, is_perio
 from ..result import Result
 
 ID = "C17"
-TOLERANCES = {"solution / K (full array incl. ghost layer)": 1e-9, "term linearity (relative to sum of |entries|)": 1e-12}
+TOLERANCES = {"solution / K (full array incl. ghost layer)": "max(1e-9, 1e-12*cond(step matrix)); cond >= 1e8 discarded", "term linearity (relative to sum of |entries|)": 1e-12}
 RULE = ("Generated: a random problem (9 classes, all spacings, BCs D/N/R/periodic, term combinations incl. TVD with any limiter, "
         "alpha scalar/cell, sink, source, 1..3 steps) and scale factors L, T, K = 10^[-6..6] (each 1 with probability 1/4).  "
         "Metamorphic relation: faces of length-like axes x L (angles unchanged), D x L^2/T, u x L/T, beta/T, gamma x K/T, dt x T, "
@@ -26,7 +26,7 @@ ASSUMPTIONS = ["K4: cases in which a non-zero face gradient of either unit syste
 
 @st.composite
 def _case(draw):
-    P = draw(problem.problems())
+    P = draw(problem.problems(dirfield=True))
     def sc():
         return 1.0 if draw(st.integers(0, 3)) == 0 else 10.0 ** draw(st.integers(-6, 6))
     d = dims_of(P['faces'])
@@ -64,6 +64,8 @@ def rescale(P, L, T, K):
     if P.get('D') is not None:
         Q['D'] = [(np.array(c, float) * (L * L / T)).tolist() for c in P['D']]
     Q['u'] = [(np.array(c, float) * (L / T)).tolist() for c in P['u']]
+    if P.get('uw') is not None:
+        Q['uw'] = [(np.array(c, float) * (L / T)).tolist() for c in P['uw']]
     if P.get('beta') is not None:
         Q['beta'] = (np.array(P['beta'], float) / T).tolist()
     if P.get('gamma') is not None:
@@ -105,6 +107,13 @@ def check(case):
     m2, _, phi2 = problem.build_var(Q)
     tag = f"{P['scheme']}:{name}"
     coefs1, coefs2 = problem.make_coefs(m1, P), problem.make_coefs(m2, Q)
+    # the two unit systems are solved through differently scaled matrices: their rounding differs by cond*eps
+    cond = problem.step_condition(P)
+    if not cond < 1e8:
+        res.discarded = True
+        res.discard_reason = 'ill-conditioned'
+        return res
+    TOLC = max(1e-9, 1e-12 * cond)
     for k in range(P['steps']):
         if P['scheme'] == 'tvd':
             # K4 exclusion: plain differences over centre distances, as the TVD routines form them
@@ -132,7 +141,7 @@ def check(case):
             res.discarded = True
             return res
         sc = max(np.abs(a).max(), 1e-300)
-        if not res.expect_small("rescaled-solution", float(np.abs(a - b).max() / sc), 1e-9, f"units:{tag}",
+        if not res.expect_small("rescaled-solution", float(np.abs(a - b).max() / sc), TOLC, f"units:{tag}",
                                 f"solution in rescaled units (L={L:g}, T={T:g}, K={K:g}) is not K times the original ({tag}, step {k + 1})",
                                 known='K4' if (case.get('demo_k4') and P['scheme'] == 'tvd') else None):
             break
